@@ -43,7 +43,7 @@ ReplyKinds(kind) == <<Expected(kind), Expected(kind), Expected(kind), "ERROR", "
 \* let the running progress handler finish
 GWait == LET t == CHOOSE x \in {ops[g].busy : g \in {y \in DOMAIN ops : ops[y].busy > cnow}} : TRUE IN
          \E tie \in R({"reply", "timer"}) :
-           Step([In0 EXCEPT !.op = "advance", !.ms = t - cnow], CAdvanceFx(CCur, t - cnow, tie))
+           Step([In0 EXCEPT !.op = "advance", !.ms = t - cnow], CAdvanceFx(CCur, t - cnow, tie, "lo"))
 
 GReply ==
   IF Active(CCur) = {} \/ ~conn THEN GApi
@@ -78,7 +78,7 @@ GAdvance ==
   \E pick \in R(1..4) : \E d \in R(IF Deadlines # {} THEN Deadlines ELSE {1}) :
   \E ms \in (IF Deadlines # {} /\ pick # 1 THEN W(<<d, d, d, IF d > 1 THEN d - 1 ELSE d, d + 1>>) ELSE R({1, 10, rt, 2 * rt})) :
   \E tie \in R({"reply", "timer"}) :
-    Step([In0 EXCEPT !.op = "advance", !.ms = ms], CAdvanceFx(CCur, ms, tie))
+    Step([In0 EXCEPT !.op = "advance", !.ms = ms], CAdvanceFx(CCur, ms, tie, "lo"))
 
 GCancel ==
   LET cs == {g \in Active(CCur) : ops[g].kind = "call" /\ ops[g].st = "waiting"} IN
